@@ -88,4 +88,48 @@ def joins(seed=0, tier="quick", **_):
                 results.append(("map-n%d-mc%s/replies" % (n, mc), explore(mk, check, 4, width=2, seed=seed, extra=5, mode="replies")))
                 results.append(("map-n%d-mc%s/reply-order" % (n, mc), explore(mk, check, 5, width=3, seed=seed, extra=5,
                                                                                mode="replies-last")))
+    # nested fan-outs: a MaxConcurrency Map inside a Parallel branch, a Parallel inside a Map iteration, a Map inside a Map
+    # (the join of the inner state must hand over to the NEXT state of its own branch, and only the outer join ends the state)
+    for name, asl, data, tasks, want in nested_machines():
+        def mk(asl=asl, data=data, tasks=tasks):
+            return S.Sim(asl, data, tasks=tasks)
+
+        def check(sim, trace, want=want):
+            probs = S.generic_invariants(sim)
+            if sim.output() != want:
+                probs.append("C05: nested output %r, position-wise result is %r" % (sim.output(), want))
+            starts = [i for i, p in enumerate(sim.published) if p["context"].get("State", {}).get("Name") == "After"]
+            if len(starts) != 1:
+                probs.append("C05: state after the outer join entered %d times" % len(starts))
+            return probs
+        results.append((name, explore(mk, check, 4, width=3, seed=seed, extra=10)))
+        results.append((name + "/replies", explore(mk, check, 4, width=2, seed=seed, extra=5, mode="replies")))
     return merge(results, "join")
+
+
+def nested_machines():
+    inner_map = lambda mc: dict({"Type": "Map", "ItemsPath": "$.items", "End": True,
+                                 "ItemProcessor": {"StartAt": "W", "States": {"W": task("work")}}},
+                                **({"MaxConcurrency": mc} if mc is not None else {}))
+    work = {"work": lambda p, c: {"done": p["i"]}, "side": lambda p, c: {"side": 1}}
+    items = [{"i": i} for i in range(3)]
+    out = []
+    for mc in (1, 2, None):
+        asl = {"StartAt": "P", "States": {
+            "P": {"Type": "Parallel", "Next": "After", "Branches": [
+                {"StartAt": "M", "States": {"M": inner_map(mc)}},
+                {"StartAt": "S", "States": {"S": task("side")}}]},
+            "After": {"Type": "Pass", "End": True}}}
+        out.append(("map-mc%s-in-parallel" % mc, asl, {"items": items}, work, [[{"done": 0}, {"done": 1}, {"done": 2}], {"side": 1}]))
+    asl = {"StartAt": "M", "States": {
+        "M": {"Type": "Map", "ItemsPath": "$.rows", "MaxConcurrency": 1, "Next": "After",
+              "ItemProcessor": {"StartAt": "I", "States": {"I": inner_map(1)}}},
+        "After": {"Type": "Pass", "End": True}}}
+    out.append(("map-in-map", asl, {"rows": [{"items": items[:2]}, {"items": items[2:]}]}, work, [[{"done": 0}, {"done": 1}], [{"done": 2}]]))
+    asl = {"StartAt": "M", "States": {
+        "M": {"Type": "Map", "ItemsPath": "$.items", "MaxConcurrency": 2, "Next": "After",
+              "ItemProcessor": {"StartAt": "Q", "States": {"Q": {"Type": "Parallel", "End": True, "Branches": [
+                  {"StartAt": "W", "States": {"W": task("work")}}, {"StartAt": "S", "States": {"S": task("side")}}]}}}},
+        "After": {"Type": "Pass", "End": True}}}
+    out.append(("parallel-in-map", asl, {"items": items}, work, [[{"done": i}, {"side": 1}] for i in range(3)]))
+    return out
